@@ -126,6 +126,10 @@ let handle kind a =
       Some (Printf.sprintf "%d %d %d" !n !h1 !h2)
   | "opt" ->
       Some (fmt_chunks (optimize_chunks (parse_chunks a.(1)) (n_of_dec a.(0))))
+  | "opta" ->
+      Some (fmt_chunks (optimize_chunks (parse_chunks a.(1)) (n_of_dec a.(0))))
+  | "optp" ->
+      Some (fmt_chunks (merge_sorted (parse_chunks a.(2))))
   | "addc" ->
       Some (fmt_chunks (List.fold_left add_chunk [] (parse_chunks a.(0))))
   | "csil" ->
@@ -138,6 +142,17 @@ let handle kind a =
       let lm = reread_loffs ix.bins ix.loffs in
       if lm = [] then Some "_" else
       Some (String.concat "," (List.map (fun (id, v) -> dec_of_n id ^ "=" ^ dec_of_n v) lm))
+  | "csih" ->
+      let ms = n_of_int (int_of_string a.(0)) and d = nat_of_int (int_of_string a.(1)) in
+      let ents = if a.(2) = "_" then [] else
+        List.map (fun b -> match split_on '=' b with
+          | [id; lo; cs] -> (n_of_dec id, n_of_dec lo, parse_chunks cs) | _ -> failwith "hbin") (split_on ';' a.(2)) in
+      let bm = List.map (fun (id, _, cs) -> (id, cs)) ents and lm = List.map (fun (id, lo, _) -> (id, lo)) ents in
+      let f = function Some cs -> fmt_chunks cs | None -> "Err" in
+      let one (qs, qe) =
+        f (query Binned ms d { bins = bm; lin = []; loffs = lm } qs qe) ^ ">" ^
+        f (query Binned ms d { bins = bm; lin = []; loffs = reread_loffs bm lm } qs qe) in
+      Some (String.concat "|" (List.map one (parse_chunks a.(3))))
   | "bai" ->
       (* args: unplaced ("-" | n) ; refs '/'-separated, each  bins|meta|intervals *)
       let opt s f = if s = "-" then None else Some (f s) in
